@@ -220,12 +220,15 @@ Record des_res := mk_des {
    even in simple mode; a sticky error changes what later failures record) *)
 Variable des : bool -> dopts -> DR -> DC -> option ER -> list byte -> DT -> des_res.
 
+(* whose memory dec.buf is: nil, the decoder's own read buffer (made by NewDecoderFromReader or
+   by loadMore), or the caller's slice handed to NewDecoder/ResetBytes (with its length) *)
+Inductive dbuf := BufNil | BufOwn | BufUser (len : nat).
+
 (* type Decoder struct { reader; buf; head; tail; simple; refer; ref; Error; LongType ... ListType }
-   reader/buf/head/tail are abstracted to the input still to be read; [d_kept]: the decoder
-   still holds its own read buffer (set by reader use, relevant only to aliasing) *)
+   head/tail are abstracted to the input still to be read; [d_from_reader]: reader != nil *)
 Record dec := mk_dec {
   d_in : list byte;
-  d_kept : bool;
+  d_buf : dbuf;
   d_from_reader : bool;
   d_simple : bool;
   d_refer : DR;
@@ -236,12 +239,17 @@ Record dec := mk_dec {
 
 (* new(Decoder) *)
 Definition new_dec : dec :=
-  {| d_in := []; d_kept := false; d_from_reader := false; d_simple := false; d_refer := dr0;
+  {| d_in := []; d_buf := BufNil; d_from_reader := false; d_simple := false; d_refer := dr0;
      d_cls := dc0; d_err := None; d_opts := opts0 |}.
 
 (* NewDecoder(input) *)
 Definition new_decoder (input : list byte) : dec :=
-  {| d_in := input; d_kept := false; d_from_reader := false; d_simple := true; d_refer := dr0;
+  {| d_in := input; d_buf := BufUser (length input); d_from_reader := false; d_simple := true; d_refer := dr0;
+     d_cls := dc0; d_err := None; d_opts := opts0 |}.
+
+(* NewDecoderFromReader(reader) *)
+Definition new_decoder_from_reader (input : list byte) : dec :=
+  {| d_in := input; d_buf := BufOwn; d_from_reader := true; d_simple := true; d_refer := dr0;
      d_cls := dc0; d_err := None; d_opts := opts0 |}.
 
 Inductive dop :=
@@ -257,7 +265,8 @@ Inductive dop :=
 | DGetOpts.
 
 Inductive dobs :=
-| ODecoded (v : DV) (err : option ER)
+| ODecoded (v : DV) (err : option ER) (clobbers : bool)  (* clobbers: the reads went into a slice of the caller *)
+| ODHang                                                 (* loadMore never returns *)
 | ODErr (e : option ER)
 | ODBool (b : bool)
 | ODOpts (o : dopts)
@@ -266,28 +275,46 @@ Inductive dobs :=
 (*  func (dec *Decoder) Reset() *Decoder {
         if !dec.IsSimple() { dec.refer.Reset() } ; dec.ref = dec.ref[:0] ; return dec } *)
 Definition dreset (s : dec) : dec :=
-  {| d_in := d_in s; d_kept := d_kept s; d_from_reader := d_from_reader s; d_simple := d_simple s;
+  {| d_in := d_in s; d_buf := d_buf s; d_from_reader := d_from_reader s; d_simple := d_simple s;
      d_refer := if d_simple s then d_refer s else dr0; d_cls := dc0; d_err := d_err s;
      d_opts := d_opts s |}.
 
 Definition dset_simple (b : bool) (s : dec) : dec :=
-  dreset {| d_in := d_in s; d_kept := d_kept s; d_from_reader := d_from_reader s; d_simple := b;
+  dreset {| d_in := d_in s; d_buf := d_buf s; d_from_reader := d_from_reader s; d_simple := b;
             d_refer := d_refer s; d_cls := d_cls s; d_err := d_err s; d_opts := d_opts s |}.
 
 (*  func (dec *Decoder) ResetBuffer() *Decoder {
-        if dec.reader == nil { dec.buf = nil } else { dec.reader = nil }
-        dec.head = 0; dec.tail = 0; dec.Error = nil
+        if dec.reader == nil { dec.buf = nil } else { dec.reader = nil }     <- with a reader the buffer is KEPT,
+        dec.head = 0; dec.tail = 0; dec.Error = nil                             whoever it belongs to
         dec.RealType = RealTypeFloat64 ... dec.ListType = ListTypeISlice ; return dec } *)
 Definition dreset_buffer (s : dec) : dec :=
-  {| d_in := []; d_kept := if d_from_reader s then d_kept s else false; d_from_reader := false;
+  {| d_in := []; d_buf := if d_from_reader s then d_buf s else BufNil; d_from_reader := false;
      d_simple := d_simple s; d_refer := d_refer s; d_cls := d_cls s; d_err := None; d_opts := opts0 |}.
 
+(*  func (dec *Decoder) loadMore() bool {
+        if dec.reader == nil { ... io.EOF ... }
+        if dec.buf == nil { dec.buf = make([]byte, defaultBufferSize) }
+        for { n, err := dec.reader.Read(dec.buf) ; ... if n > 0 { return true } ; if err != nil { return false } } }
+    Read into a zero-length slice returns (0, nil) while the reader has data: the loop never ends.
+    Read into the caller's slice overwrites the caller's data. *)
+Definition dhangs (s : dec) : bool :=
+  d_from_reader s && match d_buf s with BufUser O => true | _ => false end &&
+  match d_in s with [] => false | _ => true end.
+
+Definition dclobbers (s : dec) : bool :=
+  d_from_reader s && match d_buf s with BufUser (S _) => true | _ => false end &&
+  match d_in s with [] => false | _ => true end.
+
 Definition ddecode (s : dec) (ty : DT) : dec * dobs :=
+  if dhangs s then (s, ODHang)
+  else
   let r := des (d_simple s) (d_opts s) (d_refer s) (d_cls s) (d_err s) (d_in s) ty in
-  ({| d_in := ds_rest r; d_kept := d_kept s || d_from_reader s; d_from_reader := d_from_reader s;
+  ({| d_in := ds_rest r;
+      d_buf := if d_from_reader s then match d_buf s with BufNil => BufOwn | b => b end else d_buf s;
+      d_from_reader := d_from_reader s;
       d_simple := d_simple s; d_refer := ds_refer r; d_cls := ds_cls r; d_err := ds_err r;
       d_opts := d_opts s |},
-   ODecoded (ds_val r) (ds_err r)).
+   ODecoded (ds_val r) (ds_err r) (dclobbers s)).
 
 Definition dec_step (s : dec) (o : dop) : dec * dobs :=
   match o with
@@ -296,15 +323,15 @@ Definition dec_step (s : dec) (o : dop) : dec * dobs :=
   | DSimple b => (dset_simple b s, ODUnit)
   | DResetBytes input =>
       (* dec.reader = nil; dec.buf = input; head = 0; tail = len(input) *)
-      ({| d_in := input; d_kept := false; d_from_reader := false; d_simple := d_simple s;
+      ({| d_in := input; d_buf := BufUser (length input); d_from_reader := false; d_simple := d_simple s;
           d_refer := d_refer s; d_cls := d_cls s; d_err := d_err s; d_opts := d_opts s |}, ODUnit)
   | DResetReader input =>
-      (* dec.reader = reader; head = 0; tail = 0  (dec.buf is kept) *)
-      ({| d_in := input; d_kept := d_kept s; d_from_reader := true; d_simple := d_simple s;
+      (* dec.reader = reader; head = 0; tail = 0  (dec.buf is kept, whoever it belongs to) *)
+      ({| d_in := input; d_buf := d_buf s; d_from_reader := true; d_simple := d_simple s;
           d_refer := d_refer s; d_cls := d_cls s; d_err := d_err s; d_opts := d_opts s |}, ODUnit)
   | DResetBuffer => (dreset_buffer s, ODUnit)
   | DSetOpts o' =>
-      ({| d_in := d_in s; d_kept := d_kept s; d_from_reader := d_from_reader s; d_simple := d_simple s;
+      ({| d_in := d_in s; d_buf := d_buf s; d_from_reader := d_from_reader s; d_simple := d_simple s;
           d_refer := d_refer s; d_cls := d_cls s; d_err := d_err s; d_opts := o' |}, ODUnit)
   | DGetError => (s, ODErr (d_err s))
   | DIsSimple => (s, ODBool (d_simple s))
@@ -321,10 +348,12 @@ Fixpoint dec_run (s : dec) (ops : list dop) : dec * list dobs :=
 (*  func FreeDecoder(decoder *Decoder) { decoderPool.Put(decoder.Simple(false).ResetBuffer()) } *)
 Definition free_dec (s : dec) : dec := dreset_buffer (dset_simple false s).
 
-(* the retained read buffer is not observable through the operations (it matters to aliasing
-   only, see part 3): equality of everything else *)
+(* a buffer of the decoder's own (or none yet) is not observable; a slice of a caller is *)
+Definition norm_buf (b : dbuf) : dbuf := match b with BufUser n => BufUser n | _ => BufNil end.
+
 Definition dec_same (a b : dec) : Prop :=
-  d_in a = d_in b /\ d_from_reader a = d_from_reader b /\ d_simple a = d_simple b /\
+  d_in a = d_in b /\ norm_buf (d_buf a) = norm_buf (d_buf b) /\ d_from_reader a = d_from_reader b /\
+  d_simple a = d_simple b /\
   d_refer a = d_refer b /\ d_cls a = d_cls b /\ d_err a = d_err b /\ d_opts a = d_opts b.
 
 Definition dec_fresh_equiv (s : dec) : Prop :=
@@ -354,6 +383,13 @@ Fixpoint dsessions_run (p : dpool) (l : list dsession) : dpool * list (list dobs
   | ss :: r => let '(p1, obs) := dsession_run p ss in
                let '(p2, all) := dsessions_run p1 r in (p2, obs :: all)
   end.
+
+(* a use that takes its input from ONE kind of source (what Formatter.Unmarshal,
+   Formatter.UnmarshalFromReader and the rpc codecs do): never ResetBytes, or never ResetReader *)
+Definition is_reset_bytes (o : dop) : bool := match o with DResetBytes _ => true | _ => false end.
+Definition is_reset_reader (o : dop) : bool := match o with DResetReader _ => true | _ => false end.
+Definition one_source (ops : list dop) : bool :=
+  forallb (fun o => negb (is_reset_bytes o)) ops || forallb (fun o => negb (is_reset_reader o)) ops.
 
 End Decoder.
 
@@ -741,6 +777,7 @@ Inductive dval :=
 | DBool (b : bool)
 | DStr (s : bytes)
 | DList (vs : list dval)
+| DRefTo (v : dval)            (* 'r' to a list: ReadReference hands out the registered *[]interface{} itself *)
 | DPanic.                      (* the call panicked (index out of range in decoderRefer.Read) *)
 
 (* the decoder's reference list; a list is registered when it starts and is filled when it ends *)
@@ -873,7 +910,7 @@ Fixpoint cdec (fuel : nat) (st : dst) : dval * dst :=
           (* ReadReference: dec.refer.Read(dec.ReadInt()) -- no IsSimple() check *)
           let '(n, st2) := read_int st1 in
           match (if n <? 0 then None else nth_error (ds_r st2) (Z.to_nat n)) with
-          | Some (Some v) => (v, st2)
+          | Some (Some v) => (match v with DList _ => DRefTo v | _ => v end, st2)
           | Some None => (DNil, st2)               (* a list that is still being read: not generated *)
           | None => (DPanic, mk_dst (ds_r st2) (ds_e st2) (ds_i st2) true)
           end
@@ -891,6 +928,7 @@ Definition cdes (simple : bool) (o : dopts) (r : drefs) (c : unit) (e : option c
 Definition cdec_t := dec drefs unit cerr.
 Definition c_new_dec : cdec_t := new_dec drefs unit cerr [] tt.
 Definition c_new_decoder (input : bytes) : cdec_t := new_decoder drefs unit cerr [] tt input.
+Definition c_new_decoder_from_reader (input : bytes) : cdec_t := new_decoder_from_reader drefs unit cerr [] tt input.
 Definition c_dec_step := dec_step unit dval drefs unit cerr [] tt cdes.
 Definition c_dec_run := dec_run unit dval drefs unit cerr [] tt cdes.
 Definition c_free_dec := free_dec drefs unit cerr [] tt.
@@ -907,10 +945,10 @@ Arguments EBytes {V WR}. Arguments EIsSimple {V WR}. Arguments EGetError {V WR}.
 Arguments OFlushed {ER WR}. Arguments OBytes {ER WR}. Arguments OBool {ER WR}. Arguments OErr {ER WR}. Arguments OUnit {ER WR}.
 Arguments es_choice {V WR}. Arguments es_ops {V WR}. Arguments mk_esession {V WR}.
 Arguments lib_eop {V WR}. Arguments marshal_ops {V WR}. Arguments flush {RT CT ER WR}.
-Arguments d_in {DR DC ER}. Arguments d_kept {DR DC ER}. Arguments d_from_reader {DR DC ER}. Arguments d_simple {DR DC ER}.
+Arguments d_in {DR DC ER}. Arguments d_buf {DR DC ER}. Arguments d_from_reader {DR DC ER}. Arguments d_simple {DR DC ER}.
 Arguments d_refer {DR DC ER}. Arguments d_cls {DR DC ER}. Arguments d_err {DR DC ER}. Arguments d_opts {DR DC ER}.
 Arguments DDecode {DT}. Arguments DReset {DT}. Arguments DSimple {DT}. Arguments DResetBytes {DT}. Arguments DResetReader {DT}.
 Arguments DResetBuffer {DT}. Arguments DSetOpts {DT}. Arguments DGetError {DT}. Arguments DIsSimple {DT}. Arguments DGetOpts {DT}.
-Arguments ODecoded {DV ER}. Arguments ODErr {DV ER}. Arguments ODBool {DV ER}. Arguments ODOpts {DV ER}. Arguments ODUnit {DV ER}.
+Arguments ODecoded {DV ER}. Arguments ODHang {DV ER}. Arguments ODErr {DV ER}. Arguments ODBool {DV ER}. Arguments ODOpts {DV ER}. Arguments ODUnit {DV ER}.
 Arguments dss_choice {DT}. Arguments dss_ops {DT}. Arguments mk_dsession {DT}.
-Arguments dec_same {DR DC ER}.
+Arguments dec_same {DR DC ER}. Arguments one_source {DT}. Arguments is_reset_bytes {DT}. Arguments is_reset_reader {DT}.
